@@ -48,6 +48,10 @@ func bookEntries(bk interface{}) map[string][]board.Move {
 		}
 	}
 	if !m.IsValid() || m.Kind() != reflect.Map {
+		// another representation altogether (a sorted slice, a trie, ...): enumerate the book through its public face
+		if b, ok := bk.(engine.Book); ok {
+			return bookEntriesByWalk(b)
+		}
 		panic("book has no moves map")
 	}
 	ret := map[string][]board.Move{}
@@ -68,6 +72,42 @@ func bookEntries(bk interface{}) map[string][]board.Move {
 			})
 		}
 		ret[k] = list
+	}
+	return ret
+}
+
+// bookEntriesByWalk enumerates a book without looking inside it: from the initial position, ask `Find`, play every reply, ask
+// again. Books are built from lines that start at the initial position, so every entry is reached (an entry filed under a
+// position no line reaches would be missed: the reflective reading above is therefore preferred while it works).
+func bookEntriesByWalk(bk engine.Book) map[string][]board.Move {
+	ret := map[string][]board.Move{}
+	todo := []string{fen.Initial}
+	for len(todo) > 0 && len(ret) < 100000 {
+		f := todo[0]
+		todo = todo[1:]
+		key := fen.Strip(f)
+		if _, seen := ret[key]; seen {
+			continue
+		}
+		ms, err := bk.Find(context.Background(), f)
+		if err != nil || len(ms) == 0 {
+			continue
+		}
+		ret[key] = append([]board.Move{}, ms...)
+		p, turn, _, _, derr := fen.Decode(f)
+		if derr != nil {
+			continue
+		}
+		for _, m := range ms {
+			for _, c := range p.PseudoLegalMoves(turn) {
+				if c.Equals(m) {
+					if next, ok := p.Move(c); ok {
+						todo = append(todo, fen.Encode(next, turn.Opponent(), 0, 1))
+					}
+					break
+				}
+			}
+		}
 	}
 	return ret
 }
